@@ -812,7 +812,10 @@ def report(chk, items, recs, pid_filter=None):
         lab = it.get("label") or case_label(it["case"])
         if r["status"] == "skipped":
             skipped += 1
-            if r.get("ffcx_error") and it.get("must_compile") and not r.get("numba_error"):
+            # FormSpace cases are the supported fragment by construction (Valid predicates): with default options an
+            # exception from ffcx means no tensor is computed for a supported form
+            must = it.get("must_compile", "case" in it and not it.get("options") and not it.get("pre_compile"))
+            if r.get("ffcx_error") and must and not r.get("numba_error") and not r.get("history_error"):
                 # a form built only from documented pieces (rules, schemes, measures): no tensor at all is computed
                 chk.violation(f"{lab}:rejected", f"{lab}: ffcx fails on a supported form, so the integral is not computed at all: {r['why'][:300]}",
                               {"item": it})
@@ -1193,6 +1196,14 @@ def _libm(fn, args, cx):
                  "sinh": cmath.sinh, "tanh": cmath.tanh, "acos": cmath.acos, "asin": cmath.asin, "atan": cmath.atan}
         if fn == "pow":
             return z[0] ** z[1]
+        if fn in ("erf", "bessel_j", "bessel_y"):
+            # no complex counterpart in C / cmath: the reference value comes from mpmath (30 digits)
+            import mpmath
+            mpmath.mp.dps = 30
+            if fn == "erf":
+                return complex(mpmath.erf(mpmath.mpc(z[0].real, z[0].imag)))
+            f_ = mpmath.besselj if fn == "bessel_j" else mpmath.bessely
+            return complex(f_(int(z[0].real), mpmath.mpc(z[1].real, z[1].imag)))
         if fn not in table:
             raise OutOfModel(f"{fn} of a complex argument")
         return table[fn](z[0])
